@@ -875,8 +875,84 @@ class C12(Check):
                     "files as row lists with logical mtimes; gzip identity; escaping layer is C08/C09's"]
 
     def tables(self):
+        """pyWhitespace (Python's str.isspace set) and the PINS: constants, default arguments and token tables
+        of the anchored code that the hand-written model / the naive evaluator mirror, read from the live
+        objects (code objects incl. nested ones; docstrings and exception-message prose dropped)."""
+        import types
+        from .common import tables as T
+        from delphin import util  # noqa: F401
+        lit = T.lean_strlit
+        prose = re.compile(r"[A-Za-z]{3,} [A-Za-z']")
+
+        def canon(c):
+            if isinstance(c, str):
+                return c
+            if isinstance(c, tuple):
+                return "(" + "|".join(canon(x) for x in c) + ")"
+            if isinstance(c, types.CodeType):
+                return "<code %s>" % c.co_name
+            return "#" + repr(c)          # None, booleans, numbers
+
+        def consts(fn, defaults=False):
+            out = []
+
+            def walk(code):
+                for c in code.co_consts:
+                    if isinstance(c, str) and (c == fn.__doc__ or prose.search(c) or c.endswith(": ")):
+                        continue          # docstring / message text
+                    out.append(canon(c))
+                    if isinstance(c, types.CodeType):
+                        walk(c)
+            if defaults:
+                out.append("defaults=" + canon(fn.__defaults__ or ()))
+                out.append("kwdefaults=" + canon(tuple(sorted((fn.__kwdefaults__ or {}).items()))))
+            walk(fn.__code__)
+            return out
+
+        def slist(name, xs):
+            return "def %s : List String := [%s]" % (name, ", ".join(lit(x) for x in xs))
         ws = [c for c in range(0x110000) if chr(c).isspace()]
-        return ["def pyWhitespace : List Nat := [%s]" % ", ".join(str(c) for c in ws)]
+        lines = ["def pyWhitespace : List Nat := [%s]" % ", ".join(str(c) for c in ws)]
+        lines.append(slist("c12CoreFiles", list(tsdb.TSDB_CORE_FILES)))
+        lines.append("def c12CodedAttributes : List (String × String) := [%s]" % ", ".join(
+            "(%s, %s)" % (lit(k), lit(v)) for k, v in tsdb.TSDB_CODED_ATTRIBUTES.items()))
+        lines.append(slist("c12ModuleConsts", [tsdb.SCHEMA_FILENAME, tsdb.FIELD_DELIMITER]))
+        for name, fn, dflt in [
+                ("c12Mkprof", commands.mkprof, True),
+                ("c12MkprofFromLines", commands._mkprof_from_lines, False),
+                ("c12LinesToRecords", commands._lines_to_records, False),
+                ("c12MakeSplit", commands._make_split, False),
+                ("c12MkprofFromDatabase", commands._mkprof_from_database, False),
+                ("c12NoSuchRelation", commands._no_such_relation, False),
+                ("c12TsqlDistinct", commands._tsql_distinct, False),
+                ("c12MkprofCleanup", commands._mkprof_cleanup, False),
+                ("c12FieldInit", tsdb.Field.__init__, True),
+                ("c12TsdbWrite", tsdb.write, True),
+                ("c12WriteDatabase", tsdb.write_database, True),
+                ("c12RemakeRecords", tsdb._remake_records, False),
+                ("c12MakeRecord", tsdb.make_record, False),
+                ("c12GetPaths", tsdb._get_paths, False),
+                ("c12InitializeDatabase", tsdb.initialize_database, True),
+                ("c12CleanupFiles", tsdb._cleanup_files, False),
+                ("c12TsdbSplit", tsdb.split, True),
+                ("c12TsdbJoin", tsdb.join, True),
+                ("c12TsdbFormat", tsdb.format, True),
+                ("c12PlanJoins", tsql._plan_joins, False),
+                ("c12PivotRelations", tsql._pivot_relations, False),
+                ("c12MakeKeymap", tsql._make_keymap, False),
+                ("c12Join", tsql._join, True),
+                ("c12ProjectAll", tsql._project_all, False),
+                ("c12QnameResolver", tsql._make_qname_resolver, False),
+                ("c12ConditionFields", tsql._process_condition_fields, False),
+                ("c12ExpectedType", tsql._expected_type, False),
+                ("c12ConditionFunction", tsql._process_condition_function, False),
+                ("c12ParseConditionStatement", tsql._parse_condition_statement, False),
+                ("c12ParseSelect", tsql._parse_select, False)]:
+            lines.append(slist(name, consts(fn, dflt)))
+        lines.append(slist("c12OperatorFunctions", list(tsql._operator_functions)))
+        lines.append("def c12LexerTokens : List (String × String) := [%s]" % ", ".join(
+            "(%s, %s)" % (lit(rx), lit(nm.split(":")[0])) for rx, nm in tsql._TSQLLexer.tokens))
+        return lines
 
     def setup(self):
         self.root = tempfile.mkdtemp(prefix="c12-", dir="/var/tmp")
